@@ -1,8 +1,10 @@
 CONSTANTS
+  TraceFile = "trace.ndjson"
+  VerdictFile = "verdicts.ndjson"
   Procs = {1}
-  MaxObj = 4
-  MaxCalls = 3
-  Kinds = {"plain", "ctxval", "probectx", "fail1", "fmtopt", "fail2", "coerce", "custom", "catch"}
+  MaxCalls = 0
+  MaxObj = 40
+  Kinds = {}
   SwResetCtxMap = TRUE
   SwResetFmter = TRUE
   SwResetErrs = TRUE
@@ -11,8 +13,6 @@ CONSTANTS
   SwTestResetsMsg = TRUE
   SwCoerceResetsMsg = TRUE
   SwCollectOncePerIssue = TRUE
-INIT Init
-NEXT Next
-VIEW View
-INVARIANTS NoStaleRead ExclusiveOwner
+INIT TraceInit
+NEXT TraceNext
 CHECK_DEADLOCK FALSE
